@@ -114,11 +114,9 @@ def cnt_oracle(pid, res, driver):
     return findings
 
 
-def cnt_post_search(pid, res):
-    """C08: quotient sums around 2^32 reached THROUGH THE ENCODER (which builds residuals without the constructor's
-    checks): loud 24-bit blocks coded with Rice parameter 0 and the order-0 fixed predictor.  Only the implementation
-    is consulted: count_bits of every frame and of the stream against the bits a counting sink receives."""
-    hb = fv.build_harness("release")
+def cnt_targeted_cases(hb):
+    """C08: inputs whose residual quotient sums lie around 2^32 when coded with Rice parameter 0 and the order-0 fixed
+    predictor (loud 24-bit blocks) - reached THROUGH THE ENCODER, which builds residuals without the constructor's checks."""
     out = fv.sh([hb, "dump"], timeout=600).stdout
     cfgd = re.search(r"^cfgdefault (\S+)", out, re.M).group(1)
     def cfg(bs, **kw):
@@ -132,6 +130,14 @@ def cnt_post_search(pid, res):
         n = bs * ch
         vals = ",".join(str(x + ((k * 7) % 5) - 2) for k in range(n))
         cases.append("CNT ps%d E %s 44100 %d 24 %d %s" % (j, cfg(bs), ch, bs, vals))
+    return cases
+
+
+def cnt_post_search(pid, res):
+    """Only the implementation is consulted: count_bits of every frame and of the stream against the bits a counting
+    sink receives, on the targeted cases."""
+    hb = fv.build_harness("release")
+    cases = cnt_targeted_cases(hb)
     outs = fv.run_lines([hb, "run"], cases, timeout=900)
     findings = []
     for c, o in zip(cases, outs):
@@ -155,6 +161,7 @@ PROPS["C08"] = {
     "rule": "ENC+CNT",
     "oracle": cnt_oracle,
     "post_search": cnt_post_search,
+    "thorough_cases": lambda hb: {"CNT": cnt_targeted_cases(hb)},
     "assumptions": ["shape hypotheses (wf_residual, sub_shape, frame_ops_wfb) are decidable side conditions; the encoder's outputs "
                     "are shown to satisfy them by correspondence (and by proof where Proofs/* state it)",
                     "stream-level sum is checked on every ENC case (cb field) and follows from the frame theorem"],
@@ -1144,6 +1151,17 @@ def run_check(pid, spec, tier, seed, replay):
             res.extra["targeted_cases"] = {k: len(v) for k, v in res.extra_cases.items()}
         except Exception as e:   # the search is best effort
             res.extra["targeted_cases_error"] = str(e)[:300]
+    if tier == "thorough" and not replay and spec.get("thorough_cases"):
+        # the thorough tier always runs the targeted families (in quick they run only after a break)
+        try:
+            extra = spec["thorough_cases"](dbg)
+            merged = dict(getattr(res, "extra_cases", {}) or {})
+            for k, v in extra.items():
+                merged[k] = merged.get(k, []) + v
+            res.extra_cases = merged
+            res.extra["thorough_targeted_cases"] = {k: len(v) for k, v in extra.items()}
+        except Exception as e:
+            res.extra["thorough_targeted_cases_error"] = str(e)[:300]
     if proofs_ok and tier == "thorough" and not replay:
         coqchk(pid, spec, res)
     # (4)+(5) correspondence
